@@ -13,6 +13,11 @@ CHECKS = {
  "C09": ("exploration", "reference-model monitor (pad/fill definitions, option-encoding round trips) over generated layouts; ASan build", "held on the executions produced (lane L)", "4 C09"),
  "C11": ("exploration", "runtime monitor: validityerror vs labelled valid / one-rule-broken layouts, and a closure monitor validating every result of 1-3 chained catalogue operations; ASan build", "held on the executions produced", "4 C11"),
  "C12": ("exploration", "AddressSanitizer+UBSan build under hostile small-size workloads, crash/hang watchdog with journal, operand-dump purity monitor, drop-inputs monitor", "held on the executions produced; ASan blind spots listed in the evidence assumptions", "4 C12"),
+ "C01": ("exploration", "reference-model monitor: recursive nested-list slicer (cross-checked against NumPy on rectilinear inputs) vs Content::getitem over generated layouts and slice tuples; ASan build", "held on the executions produced; the oracle abstains (counted) on combinations whose placement rules the statement does not fix", "4 C01"),
+ "C03": ("exploration", "reference-model monitor: grouped-leaf reducer over generated layouts x 10 reducers x axes x mask/keepdims; ASan build", "held on the executions produced; non-innermost axes on ragged data are a recorded known finding (F10/F10d)", "4 C03"),
+ "C08": ("exploration", "reference-model monitor: concatenation law, numpy.concatenate promotion, numpy.astype casts, simplify value-preservation; ASan build", "held on the executions produced (lane L: mergemany/simplify/numbers_to_type)", "4 C08"),
+ "C10": ("exploration", "metamorphic + reference monitor: field projection commuted through positional slices, getitem_field(s) vs Slice items, setitem_field read-back; ASan build", "held on the executions produced (lane L)", "4 C10"),
+ "C17": ("exploration", "runtime monitor: library type strings vs the layout model's own type derivation, Content vs Form queries, Form JSON round trips, element/range type consistency; ASan build", "held on the executions produced (lane L)", "4 C17"),
  "C13": ("exploration", "differential runtime monitor: every compiled kernel specialisation vs its YAML Python definition run on index-recording typed lists; malloc-exact extents under ASan, canaries on the plain build, cross-specialisation comparison", "held on the accepted argument tuples of one run (all 690 specialisations reached)", "4 C13"),
 }
 NOT_YET = "check not built yet (framework under construction; see DESIGN.md section 11 for order)"
